@@ -98,6 +98,7 @@ theorem gen_send_bundle :
        "  idk.data[tpl] = state + 1",
        "else",
        "  idk.data[tpl] = 0",
+       "idk.used[tpl] = bpv7.DtnTimeNow()",
        "bndl.PrimaryBlock.CreationTimestamp[1] = idk.data[tpl]",
        "for ; taken != nil && taken(bndl.ID());",
        "  idk.data[tpl] = idk.data[tpl] + 1",
